@@ -10,7 +10,16 @@ int ref_type_width(int t, int tl) { switch (t) { case PT_BOOLEAN: return 1; case
 int ref_bit_width(int m) { int w = 0; while (m > 0) { w++; m >>= 1; } return w; }
 
 /* ---- codecs ------------------------------------------------------------------ */
+int ref_compress_form = 0;
 int ref_compress(int codec, const uint8_t* in, size_t n, ref_buf* out) {
+    if (ref_compress_form == 1 && codec == CODEC_SNAPPY && n > 0) {      /* one literal */
+        ref_buf_uleb(out, n); size_t m = n - 1;
+        if (n <= 60) ref_buf_u8(out, (uint8_t)(m << 2)); else { int nb = m < 0x100 ? 1 : m < 0x10000 ? 2 : m < 0x1000000 ? 3 : 4; ref_buf_u8(out, (uint8_t)((59 + nb) << 2)); for (int i = 0; i < nb; i++) ref_buf_u8(out, (uint8_t)(m >> (8 * i))); }
+        ref_buf_put(out, in, n); return 0; }
+    if (ref_compress_form == 1 && codec == CODEC_ZSTD) {                 /* no Frame_Content_Size */
+        ZSTD_CCtx* c = ZSTD_createCCtx(); if (!c) return -1; ZSTD_CCtx_setParameter(c, ZSTD_c_contentSizeFlag, 0); ZSTD_CCtx_setParameter(c, ZSTD_c_compressionLevel, 3);
+        size_t cap = ZSTD_compressBound(n) + 64; uint8_t* tmp = malloc(cap); ZSTD_outBuffer ob = { tmp, cap, 0 }; ZSTD_inBuffer ib = { in, n, 0 }; size_t r = ZSTD_compressStream2(c, &ob, &ib, ZSTD_e_end); ZSTD_freeCCtx(c);
+        if (ZSTD_isError(r) || r != 0) { free(tmp); return -1; } ref_buf_put(out, tmp, ob.pos); free(tmp); return 0; }
     switch (codec) {
     case CODEC_NONE: ref_buf_put(out, in, n); return 0;
     case CODEC_SNAPPY: {           /* literals of up to 300 bytes, and a copy element for runs of one repeated byte */
